@@ -25,6 +25,9 @@ type PropSpec struct {
 	// IncludeQuick: properties whose quick job list is run as well, in either tier (their
 	// thorough lists are long and their panic obligations are evaluated by their own checks)
 	IncludeQuick []string `json:"include_quick,omitempty"`
+	// ExcludeIncluded: harness functions (regexp) left out of the included lists — long concrete
+	// runs whose panic obligations their own property's check evaluates anyway
+	ExcludeIncluded string `json:"exclude_included,omitempty"`
 	// Selftest: concrete differential jobs engine-vs-native (translator validation)
 	Selftest []JobSpec `json:"selftest,omitempty"`
 	// OnlyIDs restricts the assertion ids that count for this property (regexp); others are
@@ -114,14 +117,26 @@ func runCheck(prop, tier string, noReplay bool) int {
 		return p.Quick
 	}
 	jobSpecs := append([]JobSpec{}, pick(ps)...)
+	var exclRe *regexp.Regexp
+	if ps.ExcludeIncluded != "" {
+		exclRe = regexp.MustCompile(ps.ExcludeIncluded)
+	}
+	addIncluded := func(list []JobSpec) {
+		for _, s := range list {
+			if exclRe != nil && exclRe.MatchString(s.Func) {
+				continue
+			}
+			jobSpecs = append(jobSpecs, s)
+		}
+	}
 	for _, inc := range ps.Include {
 		if o := specs[inc]; o != nil {
-			jobSpecs = append(jobSpecs, pick(o)...)
+			addIncluded(pick(o))
 		}
 	}
 	for _, inc := range ps.IncludeQuick {
 		if o := specs[inc]; o != nil {
-			jobSpecs = append(jobSpecs, o.Quick...)
+			addIncluded(o.Quick)
 		}
 	}
 	// de-duplicate
